@@ -174,6 +174,7 @@ def run_C13(tier, rnd, st, res):
                     if n >= 1 and nm >= 1:
                         cases.append(Case(content_for(rnd, mode, n), dict(kw, mode=MODE_NAME[mode]), 'other-modes'))
     cases += list(gen_minimal(rnd))
+    cases += list(gen_merge_histories(rnd, 15 if tier == 'quick' else 150))
     cases += list(gen_random(rnd, 300 if tier == 'quick' else 3000))
     cases = sweep(cases, st, res, ['c13'], want_c06=False, known_map=known_c13)
     sequence_block(tier, rnd, res, 'c13', known_c13)
@@ -203,6 +204,7 @@ def run_C04(tier, rnd, st, res):
                 if rnd.random() < 0.5:
                     kw['boost_error'] = False
                 cases.append(Case(content_for(rnd, mode, n), kw, 'micro-transition'))
+    cases += list(gen_merge_histories(rnd, 15 if tier == 'quick' else 150))
     cases += list(gen_random(rnd, 400 if tier == 'quick' else 4000))
     cases = sweep(cases, st, res, ['c04'], want_c06=False)
     overflow_cases(cases, st, res, 'c04')
@@ -264,6 +266,7 @@ def run_C05(tier, rnd, st, res):
                         text = ''.join(rnd.choice('abcdefghijklmnopqrstuvwxyz') for _ in range(n))
                         cut = rnd.randint(1, n - 1)
                         cases.append(Case([text[:cut], text[cut:]], dict(kw), 'eci-merged-exact-fit'))
+    cases += list(gen_merge_histories(rnd, 15 if tier == 'quick' else 150))
     cases += list(gen_random(rnd, 400 if tier == 'quick' else 4000))
     cases = sweep(cases, st, res, ['c05'], want_c06=False)
     # the single-symbol path of make_sequence must honour boost_error / the requested level as well
@@ -422,6 +425,7 @@ def run_C07(tier, rnd, st, res):
                         kw['micro'] = micro
                     cases.append(Case(content_for(rnd, m, n), kw, 'mode-level-micro'))
     cases += list(gen_encoding_histories(rnd))
+    cases += list(gen_merge_histories(rnd, 15 if tier == 'quick' else 150))
     for t in TEXTS:
         for m in (None, 'byte', 'kanji', 'hanzi', 'alphanumeric'):
             cases.append(Case(t, dict(mode=m) if m else {}, 'texts'))
